@@ -1,0 +1,74 @@
+//! Verification hooks (cargo feature `verif`, off by default).
+//!
+//! Thin public wrappers around crate-private server internals, used by an external monitoring
+//! harness. No checking logic lives here.
+
+use std::path::Path;
+
+use tako::WorkerId;
+use tako::control::ServerRef;
+use tako::events::EventProcessor;
+use tako::gateway::TaskSubmit;
+use tako::resources::ResourceDescriptor;
+
+use crate::server::Senders;
+use crate::server::autoalloc::{QueueId, QueueParameters};
+use crate::server::restore::StateRestorer;
+use crate::server::state::StateRef;
+use crate::server::tako_events::UpstreamEventProcessor;
+
+/// The event processor that `initialize_server` installs into the tako core.
+pub fn make_event_processor(state_ref: StateRef, senders: Senders) -> Box<dyn EventProcessor> {
+    Box::new(UpstreamEventProcessor::new(state_ref, senders))
+}
+
+pub struct RestoredQueue {
+    pub queue_id: QueueId,
+    pub params: QueueParameters,
+    pub worker_resources: Option<ResourceDescriptor>,
+}
+
+pub struct RestoreOutput {
+    pub server_uid: String,
+    pub job_id_counter: u32,
+    pub worker_id_counter: WorkerId,
+    pub queue_id_counter: QueueId,
+    pub truncate_size: Option<u64>,
+    pub task_submits: Vec<TaskSubmit>,
+    pub queues: Vec<RestoredQueue>,
+}
+
+/// The journal-loading half of `bootstrap::start_server`, in the same order:
+/// load the event file, seed the state counters, restore jobs and queues.
+pub fn restore_journal(
+    path: &Path,
+    state_ref: &StateRef,
+    server_ref: &ServerRef,
+) -> crate::Result<RestoreOutput> {
+    let mut restorer = StateRestorer::default();
+    restorer.load_event_file(path)?;
+    let server_uid = restorer.take_server_uid();
+    let worker_id_counter = restorer.worker_id_counter();
+    let queue_id_counter = restorer.queue_id_counter();
+    let truncate_size = restorer.truncate_size();
+    let job_id_counter = restorer.job_id_counter();
+    let mut state = state_ref.get_mut();
+    state.restore_state(&restorer);
+    let (task_submits, queues) = restorer.restore_jobs_and_queues(&mut state, server_ref)?;
+    Ok(RestoreOutput {
+        server_uid,
+        job_id_counter,
+        worker_id_counter,
+        queue_id_counter,
+        truncate_size,
+        task_submits,
+        queues: queues
+            .into_iter()
+            .map(|q| RestoredQueue {
+                queue_id: q.queue_id,
+                params: *q.params,
+                worker_resources: q.worker_resources,
+            })
+            .collect(),
+    })
+}
